@@ -1,0 +1,185 @@
+//go:build verif
+
+// Contracts for the tacquito root package, read by the verifier in /verif (tqv).
+// This file is comment-only: building with or without the "verif" tag yields the
+// same program. Syntax: Gobra-style //@ clauses, see /verif/DESIGN.md §2.3.
+package tacquito
+
+// ---------------------------------------------------------------------------
+// packet.go: cursor helpers
+// ---------------------------------------------------------------------------
+
+//@ func (b *readBuffer) byte() (c byte)
+//@   inline
+//@   requires b != nil
+//@   modifies *b
+//@   ensures[C04,C01] len(old(*b)) == 0 ==> c == 0 && *b == old(*b)
+//@   ensures[C04,C01] len(old(*b)) >= 1 ==> c == old(*b)[0] && *b == old(*b)[1:]
+
+//@ func (b *readBuffer) int() (n int)
+//@   inline
+//@   requires b != nil
+//@   modifies *b
+//@   ensures[C04,C01] len(old(*b)) == 0 ==> n == 0 && *b == old(*b)
+//@   ensures[C04,C01] len(old(*b)) >= 1 ==> n == old(*b)[0] && *b == old(*b)[1:]
+//@   ensures[C04] 0 <= n && n <= 255
+
+//@ func (b *readBuffer) uint16() (n int)
+//@   inline
+//@   requires b != nil
+//@   modifies *b
+//@   ensures[C04,C01] len(old(*b)) >= 2 ==> n == old(*b)[0]*256 + old(*b)[1] && *b == old(*b)[2:]
+//@   ensures[C04,C01] len(old(*b)) == 1 ==> n == old(*b)[0] && *b == old(*b)[1:]
+//@   ensures[C04,C01] len(old(*b)) == 0 ==> n == 0 && *b == old(*b)
+//@   ensures[C04] 0 <= n && n <= 65535
+
+//@ func (b *readBuffer) string(n int) (s string)
+//@   inline
+//@   requires b != nil && n >= 0
+//@   modifies *b
+//@   ensures[C04,C01] n >= 0 ==> len(s) == min(n, len(old(*b)))
+//@   ensures[C04,C01] n >= 0 ==> (forall i int :: 0 <= i && i < len(s) ==> s[i] == old(*b)[i])
+//@   ensures[C04,C01] n >= 0 ==> *b == old(*b)[min(n, len(old(*b))):]
+//@   ensures[C04] n >= 0 ==> inside(s, old(*b))
+
+//@ func appendUint16(b []byte, i int) (r []byte)
+//@   inline
+//@   ensures[C01] len(r) == len(b) + 2
+//@   ensures[C01] r[len(b)] == (i div 256) mod 256 && r[len(b)+1] == i mod 256
+//@   ensures[C01] forall k int :: 0 <= k && k < len(b) ==> r[k] == b[k]
+
+//@ func isAllASCII(s string) (ok bool)
+//@   ensures[C02,C04] ok == ascii(s)
+//@   loop 1 invariant 0 <= i && i <= len(s)
+//@   loop 1 invariant forall j int :: 0 <= j && j < i ==> s[j] <= 127
+
+// ---------------------------------------------------------------------------
+// header_fields.go / header.go
+// ---------------------------------------------------------------------------
+
+//@ func (v *Version) MarshalBinary() (res []byte, err error)
+//@   requires v != nil
+//@   ensures[C01,C02,C03] (err == nil) == valid.Version(*v)
+//@   ensures[C01,C03] err == nil ==> len(res) == 1 && res[0] == v.MajorVersion*16 + v.MinorVersion
+//@   ensures err != nil ==> res == nil
+
+//@ func (v *Version) UnmarshalBinary(data []byte) (err error)
+//@   requires v != nil && len(data) >= 1
+//@   modifies *v
+//@   ensures[C01,C04] err == nil && v.MajorVersion == data[0] div 16 && v.MinorVersion == data[0] mod 16
+
+//@ func (h *Header) Validate() (err error)
+//@   requires h != nil
+//@   ensures[C02,C04,C06] (err == nil) == valid.Header(*h)
+
+//@ func (h *Header) MarshalBinary() (res []byte, err error)
+//@   requires h != nil
+//@   ensures[C02] (err == nil) == valid.Header(*h)
+//@   ensures[C01] err == nil ==> wire.Header(*h, res)
+//@   ensures err != nil ==> res == nil
+//@   ensures fresh(res)
+
+//@ func (h *Header) UnmarshalBinary(data []byte) (err error)
+//@   requires h != nil
+//@   modifies *h
+//@   ensures[C04] err == nil ==> valid.Header(*h)
+//@   ensures[C04] len(data) < 12 ==> err != nil
+//@   also
+//@   ghost f Header
+//@   requires wire.Header(f, data) && valid.Header(f)
+//@   ensures[C01] err == nil
+//@   ensures[C01] h.Version == f.Version && h.Type == f.Type && h.SeqNo == f.SeqNo && h.SessionID == f.SessionID && h.Length == f.Length
+//@   ensures[C01,C02] f.SeqNo != 2 ==> h.Flags == f.Flags
+//@   ensures[C01,C02] f.SeqNo == 2 ==> h.Flags == f.Flags - (f.Flags div 4) mod 2 * 4 + 4
+
+// ---------------------------------------------------------------------------
+// authenticate.go
+// ---------------------------------------------------------------------------
+
+//@ func (a *AuthenStart) Validate() (err error)
+//@   requires a != nil
+//@   ensures[C02,C04] (err == nil) == valid.AuthenStart(*a)
+
+//@ func (a *AuthenStart) MarshalBinary() (res []byte, err error)
+//@   requires a != nil
+//@   ensures[C02] (err == nil) == (valid.AuthenStart(*a) && fits.AuthenStart(*a))
+//@   ensures[C01] err == nil ==> wire.AuthenStart(*a, res)
+//@   ensures err != nil ==> res == nil
+
+//@ func (a *AuthenStart) UnmarshalBinary(data []byte) (err error)
+//@   requires a != nil
+//@   modifies *a
+//@   ensures[C04] err == nil ==> valid.AuthenStart(*a) && fits.AuthenStart(*a)
+//@   ensures[C04] err == nil ==> inside(a.User, data) && inside(a.Port, data) && inside(a.RemAddr, data) && inside(a.Data, data)
+//@   ensures[C04] len(data) < 8 ==> err != nil
+//@   also
+//@   ghost f AuthenStart
+//@   requires wire.AuthenStart(f, data) && valid.AuthenStart(f) && fits.AuthenStart(f)
+//@   ensures[C01] err == nil && *a == f
+
+//@ func (a *AuthenReply) Validate() (err error)
+//@   requires a != nil
+//@   ensures[C02,C04] (err == nil) == valid.AuthenReply(*a)
+
+//@ func (a *AuthenReply) MarshalBinary() (res []byte, err error)
+//@   requires a != nil
+//@   ensures[C02] (err == nil) == (valid.AuthenReply(*a) && fits.AuthenReply(*a))
+//@   ensures[C01] err == nil ==> wire.AuthenReply(*a, res)
+//@   ensures err != nil ==> res == nil
+
+//@ func (a *AuthenReply) UnmarshalBinary(data []byte) (err error)
+//@   requires a != nil
+//@   modifies *a
+//@   ensures[C04] err == nil ==> valid.AuthenReply(*a) && fits.AuthenReply(*a)
+//@   ensures[C04] err == nil ==> inside(a.ServerMsg, data) && inside(a.Data, data)
+//@   ensures[C04] len(data) < 5 ==> err != nil
+//@   also
+//@   ghost f AuthenReply
+//@   requires wire.AuthenReply(f, data) && valid.AuthenReply(f) && fits.AuthenReply(f)
+//@   ensures[C01] err == nil && *a == f
+
+//@ func (a *AuthenContinue) Validate() (err error)
+//@   requires a != nil
+//@   ensures[C02,C04] (err == nil) == valid.AuthenContinue(*a)
+
+//@ func (a *AuthenContinue) MarshalBinary() (res []byte, err error)
+//@   requires a != nil
+//@   ensures[C02] (err == nil) == (valid.AuthenContinue(*a) && fits.AuthenContinue(*a))
+//@   ensures[C01] err == nil ==> wire.AuthenContinue(*a, res)
+//@   ensures err != nil ==> res == nil
+
+//@ func (a *AuthenContinue) UnmarshalBinary(data []byte) (err error)
+//@   requires a != nil
+//@   modifies *a
+//@   ensures[C04] err == nil ==> valid.AuthenContinue(*a) && fits.AuthenContinue(*a)
+//@   ensures[C04] err == nil ==> inside(a.UserMessage, data) && inside(a.Data, data)
+//@   ensures[C04] len(data) < 5 ==> err != nil
+//@   also
+//@   ghost f AuthenContinue
+//@   requires wire.AuthenContinue(f, data) && valid.AuthenContinue(f) && fits.AuthenContinue(f)
+//@   ensures[C01] err == nil && *a == f
+
+// ---------------------------------------------------------------------------
+// accounting.go
+// ---------------------------------------------------------------------------
+
+//@ func (a *AcctReply) Validate() (err error)
+//@   requires a != nil
+//@   ensures[C02,C04] (err == nil) == valid.AcctReply(*a)
+
+//@ func (a *AcctReply) MarshalBinary() (res []byte, err error)
+//@   requires a != nil
+//@   ensures[C02] (err == nil) == (valid.AcctReply(*a) && fits.AcctReply(*a))
+//@   ensures[C01] err == nil ==> wire.AcctReply(*a, res)
+//@   ensures err != nil ==> res == nil
+
+//@ func (a *AcctReply) UnmarshalBinary(data []byte) (err error)
+//@   requires a != nil
+//@   modifies *a
+//@   ensures[C04] err == nil ==> valid.AcctReply(*a) && fits.AcctReply(*a)
+//@   ensures[C04] err == nil ==> inside(a.ServerMsg, data) && inside(a.Data, data)
+//@   ensures[C04] len(data) < 5 ==> err != nil
+//@   also
+//@   ghost f AcctReply
+//@   requires wire.AcctReply(f, data) && valid.AcctReply(f) && fits.AcctReply(f)
+//@   ensures[C01] err == nil && *a == f
